@@ -1,4 +1,4 @@
-CONSTANTS MaxLen = 70  LawDim = 1  LawFull = FALSE
+CONSTANTS MaxLen = 70  LawDim = 1  LawFull = FALSE  Rich = FALSE
 INIT InitK
 NEXT NextK
 INVARIANTS KSound EmitK
